@@ -7,7 +7,7 @@ if ! git -C /repo diff --quiet; then echo "/repo has uncommitted changes"; exit 
 P=/verif/seeded/$name/patch.diff; [ -f /verif/seeded/$name/patch_current.diff ] && P=/verif/seeded/$name/patch_current.diff; git -C /repo apply "$P" 2>/dev/null || git -C /repo apply --3way "$P" 2>/dev/null || { echo "patch does not apply"; git -C /repo reset -q --hard HEAD; exit 2; }
 for id in "$@"; do
   echo "=== seed $name vs $id"
-  ./run.sh "$id" quick 2>&1 | grep -E "^(VIOLATION|KNOWN|C[0-9]+ |INCONCL|BUILD)" | cut -c1-400 | head -8
+  ./run.sh "$id" quick 2>&1 | grep -aE "^(VIOLATION|KNOWN|C[0-9]+ |INCONCL|BUILD)" | cut -c1-400 | head -8
 done
 git -C /repo reset -q --hard HEAD
 git -C /repo status --short | grep -v 'ch-dl/dl' | head
